@@ -37,6 +37,7 @@ CfgConst(n) == { [Mk("get_odesys", incl, kinds, subs, cstr, FALSE)
                    cstr \in BOOLEAN, gs \in {"none", "num", "expr"}, fs \in {"none", "num"}, cs \in ConstSets }
                 \cup { Mk("create_odesys", FALSE, kinds, Uniform(n, "none"), cstr, FALSE) :
                          kinds \in { Uniform(n, "ma_pk"), Alternate(n, "str", "ma_pk") }, cstr \in BOOLEAN }
+CfgConstQ(n) == { cf \in CfgConst(n) : cf.kinds # Alternate(n, "ma_pk", "ma_uk") \/ n = 1 }
 \* a smaller family for the wider systems of the thorough tier
 CfgConstFew(n) == { cf \in CfgConst(n) : cf.incl = FALSE /\ cf.kinds \in { Uniform(n, "ma_pk"), Alternate(n, "str", "ma_pk") }
                                           /\ cf.subs = Uniform(n, "none") /\ cf.consts \in { <<>>, <<"g", "feedratio">> } }
